@@ -203,6 +203,31 @@ pub fn c10(tier: &str, seed: u64) -> Vec<Case> {
         if class_of(&out) != "ok" { c = c.fail("isdn-without-subaddress", "an ISDN record without the optional sub-address (RFC 1183 3.2) is rejected".into()); }
         v.push(c);
     }
+    // an NSEC value whose (distinct) windows are held in another order than the wire demands: serialising it yields the
+    // canonical encoding all the same (RFC 4034 4.1.2: blocks in increasing numerical order)
+    for k in 0..6u8 {
+        use simple_dns::rdata::{NSEC, TypeBitMap};
+        let wins: Vec<(u8, Vec<u8>)> = vec![(4 + k, vec![0x40]), (0, vec![0x62, 0x01, 0x80, 0x08, 0, 3]), (1 + k % 3, vec![0, 0x20])];
+        let next = Name::new_unchecked("host.example.com");
+        let value = NSEC { next_name: next.clone(), type_bit_maps: wins.iter().map(|(w, b)| TypeBitMap { window_block: *w, bitmap: b.clone().into() }).collect() };
+        let mut sorted = wins.clone();
+        sorted.sort();
+        let mut want = vec![];
+        for l in next.get_labels() { want.push(l.len() as u8); want.extend_from_slice(l.as_bytes()); }
+        want.push(0);
+        for (w, b) in &sorted { want.push(*w); want.push(b.len() as u8); want.extend_from_slice(b); }
+        let mut c = Case::oracle_only().tag("nsec-unordered-value");
+        for comp in [false, true] {
+            let mut p = Packet::new_reply(1);
+            p.answers.push(ResourceRecord::new(Name::new_unchecked("a.example.com"), CLASS::IN, 1, RData::NSEC(value.clone())));
+            let bytes = if comp { p.build_bytes_vec_compressed() } else { p.build_bytes_vec() };
+            match bytes.ok().and_then(|b| walker::walk(&b).map(|w| (b, w))) {
+                Some((b, w)) => { let e = &w.sections[0][0]; if b[e.rd_start..e.next()] != want[..] { c = c.fail("layout-written", format!("NSEC with windows held out of order: the {} writer does not emit the blocks in increasing order", if comp { "compressing" } else { "plain" })); } }
+                None => { c = c.fail("layout-written", "NSEC with windows held out of order: not serialised / not framed".into()); }
+            }
+        }
+        v.push(c);
+    }
     // RFC 1706 5: the NSAP RDATA is "a variable length string of octets containing the NSAP", at most 20 octets; the
     // library reads the fixed 20-octet GOSIP layout only
     for n in [1usize, 13, 19] {
